@@ -7,9 +7,13 @@
 //    C++ item<metatype>. Histories of set(bytes,len | text,-1) / set(NULL,0) / copy(a<-b | a<-a | a<-NULL) /
 //    compare(text) / inequal(a,b) / node locate / re-creation; lengths near every inline capacity, 250..254,
 //    65533..65536.
-// O: model optional<string> per identifier (see report for the grounding of every check).
+//    Round 4: identifiers made by the C static initialiser MPT_IDENTIFIER_INIT (three adjacent ones followed by guard
+//    bytes inside one block: ASan cannot see a write that stays inside the block) and set(NULL, n) ("non-printable
+//    data": n zero bytes, no character set).
+// O: model optional<string> (+ binary flag) per identifier (see report for the grounding of every check).
 #include "vp.hpp"
 #include "mpt_c.hpp"
+#include "mpt_cinit.hpp"
 
 #include <dlfcn.h>
 #include <optional>
@@ -17,7 +21,21 @@
 using namespace vp;
 using namespace mpt;
 
-typedef std::optional<std::string> Model;
+// what an identifier holds: nothing, a text, or n bytes of "non-printable data" (set(NULL, n): zero-filled, no charset)
+struct Model {
+  std::optional<std::string> v;
+  bool binary = false;
+  Model() {}
+  Model(const std::string &t, bool bin = false) : v(t), binary(bin) {}
+  Model(const char *t) : v(std::string(t)) {}
+  explicit operator bool() const { return v.has_value(); }
+  const std::string &operator*() const { return *v; }
+  const std::string *operator->() const { return &*v; }
+  void reset() { v.reset(); binary = false; }
+  bool text() const { return v.has_value() && !binary; }
+  bool operator==(const Model &o) const { return v == o.v && binary == o.binary; }
+};
+static_assert(mpt_cview::identifier_size == sizeof(mpt::identifier), "C and C++ view of struct identifier differ");
 
 // ---- failing: library state may be corrupt afterwards, so harness destructors must not call into it
 static bool g_abandon;
@@ -34,8 +52,8 @@ static node_new_fn core_node_new() {
   return f;
 }
 
-enum Kind { KInit, KNew, KNode, KTraits, KCxx, KCxxCopy, KItem, NKind };
-static const char *kKind[] = {"init", "new", "node", "traits", "c++", "c++copy", "item"};
+enum Kind { KInit, KNew, KNode, KTraits, KCxx, KCxxCopy, KItem, KStatic, NKind };
+static const char *kKind[] = {"init", "new", "node", "traits", "c++", "c++copy", "item", "static"};
 static const size_t kSizes[] = {16, 32, 64, 128, 256, 24, 88, 216};
 
 struct Slot {
@@ -53,7 +71,7 @@ struct Slot {
     int k = kind;
     kind = -1;
     if (g_abandon) {  // failed case: give back what the harness owns, leave the rest alone
-      if (k == KItem || k == KNode || k == KNew) return;
+      if (k == KItem || k == KNode || k == KNew || k == KStatic) return;
       free(block);
       return;
     }
@@ -64,14 +82,31 @@ struct Slot {
       case KTraits: mpt_identifier_traits()->fini(id); free(block); break;
       case KCxx: case KCxxCopy: id->~identifier(); free(block); break;
       case KItem: delete it; break;
+      case KStatic: mpt_identifier_set(id, 0, 0); memcpy(id, &mpt_cview::identifier_init, sizeof(*id)); break;  // element stays in the arena
     }
     id = 0; block = 0; nd = 0; it = 0;
   }
   ~Slot() { release(); }
 };
 
+// three adjacent statically initialised identifiers followed by guard bytes, all inside one heap block
+// (`struct { MPT_STRUCT(identifier) id[3]; uint8_t guard[16]; } x = { { MPT_IDENTIFIER_INIT, ... } }` of a C program)
+struct Arena {
+  enum { N = 3, Guard = 16 };
+  uint8_t *p = 0;
+  identifier *element(size_t i) {
+    if (!p) {
+      p = (uint8_t *)malloc(N * sizeof(identifier) + Guard);
+      for (size_t k = 0; k < N; k++) memcpy(p + k * sizeof(identifier), &mpt_cview::identifier_init, sizeof(identifier));
+      memset(p + N * sizeof(identifier), 0xA5, Guard);
+    }
+    return (identifier *)(p + i * sizeof(identifier));
+  }
+  ~Arena() { free(p); }
+};
 struct World {
   Ctx &c;
+  Arena arena;  // declared before the slots: released after them
   Slot s[3];
   size_t n = 0;
   unsigned transitions = 0;
@@ -81,7 +116,7 @@ struct World {
 static std::string show(const Model &m) {
   if (!m) return "<none>";
   char b[32];
-  snprintf(b, sizeof b, "%zu:", m->size());
+  snprintf(b, sizeof b, "%s%zu:", m.binary ? "binary " : "", m->size());
   return std::string(b) + hex(m->data(), m->size(), 12);
 }
 
@@ -99,6 +134,17 @@ static void check_slot(World &w, size_t i, const char *after) {
     return;
   }
   const std::string &m = *s.model;
+  if (s.model.binary) {
+    // set(NULL, n): n bytes of zero-filled non-character data
+    CK(c, id->_len == m.size(), "readback-length", "#%zu after %s: _len %u, expected %zu bytes of binary data", i, after, (unsigned)id->_len, m.size());
+    CK(c, id->_charset == 0, "readback-charset", "#%zu after %s: _charset %u for binary data", i, after, (unsigned)id->_charset);
+    size_t z = 0;
+    while (z < m.size() && data[z] == 0) ++z;
+    CK(c, z == m.size(), "readback-content", "#%zu after %s: binary byte %zu of %zu is %02x, expected 00 (%s)", i, after, z, m.size(), (unsigned)(uint8_t)data[z], s.external() ? "external" : "inline");
+    if (s.cxx()) CK(c, id->name() == 0, "readback-content", "#%zu after %s: C++ identifier with binary data has a name", i, after);
+    if (s.kind == KNode) CK(c, mpt_node_ident(s.nd) == 0, "readback-content", "#%zu after %s: node with binary identifier returns a name", i, after);
+    return;
+  }
   CK(c, id->_len == m.size() + 1, "readback-length", "#%zu after %s: _len %u, expected %zu (text length %zu + terminator)", i, after, (unsigned)id->_len, m.size() + 1, m.size());
   CK(c, id->_charset == identifier::UTF8, "readback-charset", "#%zu after %s: _charset %u for a text name", i, after, (unsigned)id->_charset);
   size_t k = 0;
@@ -110,7 +156,19 @@ static void check_slot(World &w, size_t i, const char *after) {
   if (s.kind == KNode) CK(c, mpt_node_ident(s.nd) == data, "readback-content", "#%zu after %s: mpt_node_ident differs from identifier data", i, after);
 }
 static void check_all(World &w, const char *after) {
-  for (size_t i = 0; i < w.n; i++) check_slot(w, i, after);
+  for (size_t i = 0; i < w.n; i++) if (w.s[i].kind >= 0) check_slot(w, i, after);
+  // statically initialised neighbours nobody uses and the bytes behind the last one must be what they were
+  if (w.arena.p) {
+    Ctx &c = w.c;
+    for (size_t e = 0; e < Arena::N; e++) {
+      identifier *el = w.arena.element(e);
+      bool used = false;
+      for (size_t i = 0; i < w.n; i++) if (w.s[i].kind >= 0 && w.s[i].id == el) used = true;
+      if (!used) CK(c, !memcmp(el, &mpt_cview::identifier_init, sizeof(*el)), "static-neighbour", "after %s: unused statically initialised identifier [%zu] changed to %s", after, e, hex(el, sizeof(*el), 16).c_str());
+    }
+    const uint8_t *g = w.arena.p + Arena::N * sizeof(identifier);
+    for (size_t k = 0; k < Arena::Guard; k++) CK(c, g[k] == 0xA5, "static-guard", "after %s: byte %zu behind the last statically initialised identifier changed to %02x", after, k, (unsigned)g[k]);
+  }
 }
 
 // ---- creation
@@ -190,6 +248,14 @@ static void create(World &w, size_t i, int kind, size_t arg, const Slot *from) {
       s.id = s.it;
       s.kind = kind;
       c.logf("#%zu = C++ item<metatype>(%s) (_max %u)", i, s.model ? show(s.model).c_str() : "", (unsigned)s.id->_max);
+      break;
+    }
+    case KStatic: {
+      s.id = w.arena.element(i);
+      s.kind = kind;
+      c.logf("#%zu = MPT_IDENTIFIER_INIT, element %zu of 3 adjacent identifiers (_max %u)", i, i, (unsigned)s.id->_max);
+      // the declared capacity must lie inside the struct
+      CK(c, 4u + s.id->_max <= sizeof(identifier), "static-capacity", "MPT_IDENTIFIER_INIT declares %u data bytes, struct identifier has room for %zu", (unsigned)s.id->_max, sizeof(identifier) - 4);
       break;
     }
   }
@@ -277,6 +343,29 @@ static void op_clear(World &w, size_t i) {
   check_all(w, "clear");
   note_transition(w, "clear", was, s.external());
 }
+// set(NULL, n > 0): "Pass zero pointer for base address to indicate non-printable data" (doc of mpt_identifier_set)
+static void op_set_binary(World &w, size_t i, size_t n) {
+  Ctx &c = w.c;
+  Slot &s = w.s[i];
+  bool was = s.external();
+  c.logf("set #%zu (%s, _max %u, %s) <- NULL len=%zu", i, kKind[s.kind], (unsigned)s.max(), show(s.model).c_str(), n);
+  bool ok;
+  if (s.cxx()) ok = s.id->set_name(0, (int)n);
+  else {
+    void *r = mpt_identifier_set(s.id, 0, (int)n);
+    ok = r != 0;
+    if (ok) CK(c, r == mpt_identifier_data(s.id), "set-return", "mpt_identifier_set(NULL, %zu) returned %p, data is at %p", n, r, mpt_identifier_data(s.id));
+  }
+  if (n <= 65535) {
+    CK(c, ok, "set-refused", "set of %zu bytes of binary data refused (storage _max %u)", n, (unsigned)s.max());
+    c.label("set-binary:ok");
+  } else {
+    c.label(ok ? "set-binary:overlong-accepted" : "set-binary:overlong-refused");
+  }
+  if (ok) s.model = Model(std::string(n, '\0'), true);
+  check_all(w, ok ? "set binary" : "refused set binary");
+  note_transition(w, "set-binary", was, s.external());
+}
 static void check_equal(World &w, size_t a, size_t b, const char *after) {
   Ctx &c = w.c;
   bool same = w.s[a].model == w.s[b].model;
@@ -315,10 +404,14 @@ static void op_compare(World &w, size_t i, const std::string &text, bool by_strl
   Slot &s = w.s[i];
   Exact buf(text, by_strlen);
   int len = by_strlen ? -1 : (int)text.size();
-  bool same = s.model && *s.model == text;
+  bool same = s.model.text() && *s.model == text;
   int r;
   if (s.cxx()) r = s.id->equal(buf.p, len) ? 0 : 1;
-  else r = mpt_identifier_compare(s.id, buf.p, len);
+  else {
+    r = mpt_identifier_compare(s.id, buf.p, len);
+    // documented: "mpt::BadType  identifier has non-character content"
+    if (s.model.binary) CK(c, r == BadType, "compare-wrong", "compare(#%zu %s, text) = %d, documented result for non-character content is BadType (%d)", i, show(s.model).c_str(), r, (int)BadType);
+  }
   c.logf("compare #%zu (%s) with %s (%s) len=%d -> %d", i, show(s.model).c_str(), show(Model(text)).c_str(), how, len, r);
   CK(c, (r == 0) == same, "compare-wrong", "compare(#%zu %s, %s) = %d, contents %s", i, show(s.model).c_str(), show(Model(text)).c_str(), r, same ? "are equal" : "differ");
   if (s.kind == KNode) {
@@ -351,7 +444,7 @@ static std::string related(Ctx &c, const Slot &s, const char *&how) {
   }
 }
 
-static int draw_kind(Ctx &c) { return (int)c.weighted({6, 3, 2, 1, 2, 1, 2}); }
+static int draw_kind(Ctx &c) { return (int)c.weighted({6, 3, 2, 1, 2, 1, 2, 3}); }  // new kinds are added at the end: earlier bytes keep their meaning
 static void create_drawn(World &w, size_t i) {
   Ctx &c = w.c;
   int kind = draw_kind(c);
@@ -389,7 +482,7 @@ static void run(Ctx &c) {
   while (c.more() && ops < 60) {
     ++ops;
     size_t i = c.pick(n);
-    switch (c.weighted({8, 2, 6, 5, 3, 1})) {
+    switch (c.weighted({8, 2, 6, 5, 3, 1, 3})) {  // new operations are added at the end
       case 0: {
         size_t len = draw_len(c, w.s[i].max());
         std::string t = mk_content(c, len);
@@ -414,13 +507,18 @@ static void run(Ctx &c) {
         break;
       }
       case 4: check_equal(w, i, c.pick(n), "inequal"); break;
-      default:
+      case 5:
         c.logf("release #%zu", i);
         w.s[i].release();
         create_drawn(w, i);
         check_all(w, "re-creation");
         c.label("recreate");
         break;
+      default: {
+        size_t len = draw_len(c, w.s[i].max() + 1);  // binary data has no terminator: inline up to _max bytes
+        op_set_binary(w, i, len ? len : 1);
+        break;
+      }
     }
   }
   if (w.transitions) c.nontrivial();
@@ -429,7 +527,9 @@ static void run(Ctx &c) {
 }
 
 // ---- exhaustive: storage size x previous length x new length x {set, copy from each storage size} x {C, C++}
-//      lengths {none, 0, 1, cap-1, cap, cap+1, cap+2, 300}, cap = longest text kept inline (_max - 1)
+//      storage: init/C++ on 16,32,64,128,256 bytes | MPT_IDENTIFIER_INIT (first of three adjacent ones)
+//      lengths {none, text 0, 1, cap-1, cap, cap+1, cap+2, 300 | binary 1, max-1, max, max+1, max+2, 300},
+//      cap = longest text kept inline (_max - 1), max = most binary bytes kept inline (_max)
 static size_t enum_len(size_t idx, size_t max_) {
   size_t cap = max_ - 1;
   static const int d[] = {-1, 0, 1, 2};
@@ -437,25 +537,33 @@ static size_t enum_len(size_t idx, size_t max_) {
     case 1: return 0;
     case 2: return 1;
     case 7: return 300;
-    default: return cap + d[idx - 3];
+    case 8: return 1;
+    case 13: return 300;
+    default: return idx < 8 ? cap + d[idx - 3] : max_ + d[idx - 9];
   }
 }
+// bring an identifier to the enumerated content (idx > 0)
+static void enum_set(World &w, size_t slot, size_t idx, size_t max_) {
+  if (idx < 8) op_set(w, slot, mk_content(w.c, enum_len(idx, max_)), false);
+  else op_set_binary(w, slot, enum_len(idx, max_));
+}
 static void run_enum(Ctx &c) {
-  size_t si = c.pick(5), pi = c.pick(8), ni = c.pick(8), op = c.pick(6), api = c.pick(2);
+  size_t si = c.pick(6), pi = c.pick(14), ni = c.pick(14), op = c.pick(6), api = c.pick(2);
   World w(c);
   w.n = 1;
-  create(w, 0, api ? KCxx : KInit, si, 0);
+  if (si == 5) create(w, 0, KStatic, 0, 0);
+  else create(w, 0, api ? KCxx : KInit, si, 0);
   size_t max_ = w.s[0].max();
-  c.logf("enumerated: storage %zu, previous %zu, new %zu, %s", kSizes[si], pi, ni, op ? "copy" : "set");
-  if (pi) op_set(w, 0, mk_content(c, enum_len(pi, max_)), false);
+  c.logf("enumerated: storage %s, previous %zu, new %zu, %s", si == 5 ? "static" : std::to_string(kSizes[si]).c_str(), pi, ni, op ? "copy" : "set");
+  if (pi) enum_set(w, 0, pi, max_);
   if (op == 0) {
-    if (ni) op_set(w, 0, mk_content(c, enum_len(ni, max_)), false);
+    if (ni) enum_set(w, 0, ni, max_);
     else op_clear(w, 0);
     if (w.s[0].model) { const char *how = "same"; op_compare(w, 0, *w.s[0].model, false, how); }
   } else {
     w.n = 2;
     create(w, 1, api ? KCxx : KInit, op - 1, 0);
-    if (ni) op_set(w, 1, mk_content(c, enum_len(ni, max_)), false);
+    if (ni) enum_set(w, 1, ni, max_);
     op_copy(w, 0, 1);
     // the copy is independent of its source
     op_set(w, 1, "x", false);
@@ -465,13 +573,13 @@ static void run_enum(Ctx &c) {
   c.nontrivial();
   for (size_t i = w.n; i-- > 0;) w.s[i].release();
 }
-static uint64_t enum_count(int) { return 5 * 8 * 8 * 6 * 2; }
+static uint64_t enum_count(int) { return 6 * 14 * 14 * 6 * 2; }
 static void enum_make(uint64_t idx, int, std::vector<uint8_t> &out) {
   out.clear();
   out.push_back(0xff);
-  out.push_back(idx % 5); idx /= 5;
-  out.push_back(idx % 8); idx /= 8;
-  out.push_back(idx % 8); idx /= 8;
+  out.push_back(idx % 6); idx /= 6;
+  out.push_back(idx % 14); idx /= 14;
+  out.push_back(idx % 14); idx /= 14;
   out.push_back(idx % 6); idx /= 6;
   out.push_back(idx % 2);
   for (int i = 0; i < 8; i++) out.push_back(0);  // content draws: pattern mode, seed 0
@@ -482,7 +590,9 @@ static Target t = {
     "random: 1-3 identifiers in storage made by mpt_identifier_init on 16/24/32/64/88/128/216/256 byte blocks, mpt_identifier_new(len), mpt_node_new(len), the identifier type traits, "
     "C++ identifier(total)/copy constructor/item<metatype>; up to 60 operations set(bytes,len | text,-1)/clear/copy(other|self|NULL)/compare(same|one byte changed|shorter|longer|fresh)/inequal/"
     "node locate/re-create, lengths around each inline capacity, 250..254, 65533..65536; all identifiers read back after every operation. "
-    "exhaustive: 5 storage sizes x previous length x new length (none,0,1,cap-1,cap,cap+1,cap+2,300) x {set, copy from each of 5 storage sizes} x {C, C++}. "
+    "Also identifiers made by the C static initialiser MPT_IDENTIFIER_INIT (three adjacent ones + guard bytes in one block, unused neighbours and guard compared after every operation) "
+    "and set(NULL, n) (n zero bytes of non-character data; text compare must answer BadType). "
+    "exhaustive: {5 storage sizes, static initialiser} x previous content x new content (none, text 0,1,cap-1,cap,cap+1,cap+2,300, binary 1,max-1,max,max+1,max+2,300) x {set, copy from each of 5 storage sizes} x {C, C++}. "
     "non-trivial: at least one identifier switched between inline and external storage (by what _len/_max say after the operation); distinct by hash of the draw sequence.",
     run,
     {600, 1500},
